@@ -385,15 +385,18 @@ def cyl_periodic_cases(ck: Check, n: int):
         z0 = rng.choice([0.0, -2.0])
         grid = CylindricalSymGrid(nr * dr, [z0, z0 + nz * dz], [nr, nz], periodic_z=True)
         kind = rng.choice(["noise", "blob+tube", "blob+tube", "blobs", "head+tail"])
+        if kind == "head+tail":
+            # one asymmetric on-axis component across the periodic boundary (a 'tadpole'): a thick heavy head next to the
+            # boundary and a thin tail that reaches round more than half a period on the other side, one layer left empty
+            nr, nz = rng.randint(6, 9), rng.randint(12, 16)
         m = np.zeros((nr, nz), dtype=bool)
         if kind == "head+tail":
-            # one asymmetric on-axis component across the periodic boundary: a thick head on one side and a thin tail that
-            # reaches more than half a period to the other side (not all the way round)
-            zc, rad = rng.randrange(nz), rng.randint(2, max(2, nr - 1))
-            m[:rad, zc] = True
-            m[:rad, (zc + 1) % nz] = True
-            for k in range(2, min(nz - 2, nz // 2 + rng.randint(1, 3)) + 1):
-                m[0, (zc + k) % nz] = True
+            hl = rng.randint(3, 6)
+            tl = nz - 1 - hl - rng.choice([0, 0, 1])
+            m[:, 0:hl] = True
+            for j in range(1, tl + 1):
+                m[: rng.choice([1, 1, 2]), (nz - j) % nz] = True
+            m = np.roll(m, rng.choice([0, 0, 1, -1, 2]), axis=1)
             if rng.random() < 0.5:
                 m = m[:, ::-1].copy()
         elif kind == "noise":
